@@ -38,6 +38,7 @@ def add_clip_vars(w: dict, rng: random.Random) -> None:
     add("imiss", "face", g + ["t"], "i2", fill=-7, fillattr="missing_value")
     add("izero", "face", list(g), "i2", fill=0, fillattr="_FillValue")        # zero is a legitimate fill value
     add("iplain", "face", list(reversed(g)), "i8")
+    add("lag", "face", list(g) + ["t"], "m8[h]")        # a duration (timedelta64): blanked with NaT
     for kind in W.kinds_of(w):
         if kind != "face":
             gk = ["@0", "@1"] if len(W.kind_shape(w, kind)) == 2 else ["@0"]
@@ -49,7 +50,7 @@ def add_clip_vars(w: dict, rng: random.Random) -> None:
 
 
 def fillkind(v: dict) -> str:
-    if v.get("dtype", "f8").startswith("f"):
+    if v.get("dtype", "f8").startswith("f") or v.get("dtype", "f8").startswith("m8"):
         return "float"
     return "attr" if v.get("fill") is not None else "none"
 
@@ -163,6 +164,10 @@ def histories(w: dict, rng: random.Random, tier: str) -> list[dict]:
             chosen = rng.sample(inner, rng.randint(2, max(2, min(len(inner) - 1, 4))))
             ev.append({"a": "MakeMask", "geom": [{"t": "pt", "pts": [p]} for p in chosen], "label": "scatter", "buffer": 0})
             ev.append({"a": "Apply", "obj": 1, "off": 0, "via": "direct"})
+    if w["conv"] == "ugrid" and len(inner) >= 2:
+        # a multi-part geometry two of whose parts touch the SAME face (a station listed twice), no buffer
+        ev.append({"a": "MakeMask", "geom": [{"t": "pt", "pts": [p]} for p in (inner[0], inner[-1], inner[0])], "label": "scatter", "buffer": 0})
+        ev.append({"a": "Apply", "obj": 1, "off": 0, "via": "direct"})
     g = rng.choice(geoms[:6])
     b = rng.choice([0, 1])
     ev.append({"a": "MakeMask", "geom": g["parts"], "label": g["label"], "buffer": b})
